@@ -131,6 +131,7 @@ def _bit_count_model(kind):
             top = max(int(hi).bit_length() - 1, 0)
         if kind == 'count_ones' and lo >= 0 and hi != INF:
             top = min(bits, int(hi).bit_length())
+            bot = 1 if lo >= 1 else 0
         r = st.ctx.sym_range(st.fresh_name(kind), bot, top, integer=True)
         st.ctx.sym_deps[r.as_single_atom()] = set(a.term.atoms()) if hasattr(st.ctx, 'sym_deps') else set()
         return I.Num(r, 'u32')
@@ -615,13 +616,30 @@ def m_iter_min(it, st, fr, t, args, ga):
     return _opt_ref_num(it, st, _cont(it, st, args[0]), 'min')
 
 
+def _selection_fn_kind(f):
+    """`u8::max`, `Ord::min`, `core::cmp::max` ... passed as a function value: 'max' / 'min', else None"""
+    if isinstance(f, I.FnV):
+        tail = f.path.rsplit('::', 1)[-1]
+        if tail in ('max', 'min') and ('cmp' in f.path or 'Ord' in f.path or 'core::num' in f.path):
+            return tail
+    return None
+
+
+def m_iter_count(it, st, fr, t, args, ga):
+    c = _cont(it, st, args[0])
+    if c.len is None:
+        raise I.InterpError('count over a sequence of unknown length')
+    return I.Num(c.len, 'usize')
+
+
 def m_iter_reduce(it, st, fr, t, args, ga):
     """Iterator::reduce(f) over a sequence when f is a *selection*: evaluated on two generic elements (older, newer) it returns
     newer (-> last), older (-> first), max(older, newer) or min(older, newer).  The result is then Some(last/first/max/min of the
     sequence), None for an empty sequence.  Anything else fails closed."""
     c = _cont(it, st, args[0])
     clo = args[1]
-    if not isinstance(clo, I.ClosureV):
+    fn_kind = _selection_fn_kind(clo)
+    if not isinstance(clo, I.ClosureV) and fn_kind is None:
         raise I.InterpError('reduce with non-closure %r' % (clo,))
     ety = c.elem_ty or {'k': 'uint', 'n': 'u8'}
     if ety.get('k') not in ('int', 'uint'):
@@ -665,7 +683,7 @@ def m_iter_reduce(it, st, fr, t, args, ga):
         return outs_
 
     try:
-        kind = classify(st)
+        kind = fn_kind if fn_kind is not None else classify(st)
     except I.InterpError as e:
         if 'fork' not in str(e) and 'variant' not in str(e):
             raise
@@ -1094,6 +1112,11 @@ def m_fold(it, st, fr, t, args, ga):
     iteration on the range of a numeric accumulator"""
     c = _cont(it, st, args[0])
     acc, clo = args[1], args[2]
+    fk = _selection_fn_kind(clo)
+    if fk is not None and isinstance(acc, I.Num):
+        term = it.fold_term(fk, acc.term, c.term, st.ctx, c.len)
+        if term is not None:
+            return I.Num(term, acc.ty)
     if not isinstance(clo, I.ClosureV):
         raise I.InterpError('fold with non-closure')
     n = c.len.const_value() if c.len is not None else None
@@ -1256,8 +1279,31 @@ def _iter_adaptor(name):
     def m(it, st, fr, t, args, ga):
         c = _cont(it, st, args[0])
         rest = tuple(_hash_val(it, a) for a in args[1:])
+        if name == 'rev' and c.len is not None:
+            ex = dict(c.extra or {})
+            ex['rev_of'] = (c.term, c.len)
+            return I.ContV('iter', (name, c.term) + rest, length=c.len, elem_ty=c.elem_ty, extra=ex)
         return I.ContV('iter', (name, c.term) + rest, elem_ty=c.elem_ty)
     return m
+
+
+def m_rev_next(it, st, fr, t, args, ga):
+    """next() on a fresh `.rev()` of a sequence: Some(last element) exactly when the sequence is non-empty"""
+    c = _cont(it, st, args[0])
+    ro = (c.extra or {}).get('rev_of')
+    if ro is None or c.extra.get('pos'):
+        raise I.InterpError('next on a reversed iterator that was already advanced')
+    term, ln = ro
+    by_value = bool(c.extra.get('by_value'))
+
+    def some_(it2, s2, f2):
+        c2 = _cont(it2, s2, it2.operand(s2, f2, t['args'][0]))
+        v = I.Num(elem_term(term, ln - 1, ln, s2.ctx, c2.elem_ty or {'k': 'uint', 'n': 'u8'}), (c2.elem_ty or {}).get('n', 'u8')) \
+            if (c2.elem_ty or {'k': 'uint'}).get('k') in ('int', 'uint', 'float') else _elem_value(it2, s2, I.ContV('slice', term, length=ln, elem_ty=c2.elem_ty), ln - 1)
+        c2.extra = dict(c2.extra)
+        c2.extra['pos'] = 1
+        return some(v if by_value else I.RefV(s2.new_cell(v)))
+    return ('fork', [(cmp_term('Gt', ln, 0), some_), (cmp_term('Eq', ln, 0), lambda it2, s2, f2: none())])
 
 
 
@@ -1321,6 +1367,8 @@ def lazy_iter_model(it, st, cands, args):
     if name in ('into_iter', 'iter') and isinstance(a0, I.ArrV) and a0.items is not None:
         # [a, b, c].into_iter() / .iter(): the array itself stands for its element sequence
         return lambda it_, st_, fr_, t_, args_, ga_: I.LazyIterV('same' if name == 'into_iter' else 'refs', a0)
+    if name == 'next' and 'Iterator' in trait and isinstance(a0, I.ContV) and a0.kind == 'iter' and (a0.extra or {}).get('rev_of') is not None:
+        return m_rev_next
     if not (trait.endswith('Iterator') and name in _LAZY_ADAPTORS):
         return None
     if not _iter_like(it, st, args[0]):
@@ -1675,6 +1723,48 @@ def m_lazy_any_all(kind):
     return m
 
 
+
+def m_int_try_from(it, st, fr, t, args, ga):
+    """<uN as TryFrom<uM>>::try_from / try_into between integer types: Ok(x) when x fits the target, Err otherwise"""
+    x = _num(args[0])
+    dest_ty = it.local_ty(fr, t['dest'])
+    tgt = None
+    for a in dest_ty.get('args', []):
+        if isinstance(a, dict) and 'ty' in a and a['ty'].get('k') in ('int', 'uint'):
+            tgt = a['ty'].get('n')
+            break
+    if tgt not in I.INT_RANGES:
+        raise I.InterpError('try_from into %r' % (dest_ty,))
+    lo, hi = I.INT_RANGES[tgt]
+    fits = band(cmp_term('Ge', x.term, lo), cmp_term('Le', x.term, hi))
+    ok = lambda it2, s2, f2: I.EnumV('core::result::Result', 0, {0: [I.Num(x.term, tgt)]}, vnames=['Ok', 'Err'])
+    err = lambda it2, s2, f2: I.EnumV('core::result::Result', 1, {1: [I.Opaque('TryFromIntError', 'err')]}, vnames=['Ok', 'Err'])
+    return ('fork', [(fits, ok), (bnot(fits), err)])
+
+
+def m_enum_eq(negate):
+    def m(it, st, fr, t, args, ga):
+        a = it.deref(st, args[0]) if isinstance(args[0], I.RefV) else args[0]
+        b = it.deref(st, args[1]) if isinstance(args[1], I.RefV) else args[1]
+        va, vb = _known_variant(a), _known_variant(b)
+        if va != vb:
+            r = FALSE
+        else:
+            pa, pb = a.payload.get(va) or [], b.payload.get(vb) or []
+            r = TRUE
+            for x, y in zip(pa, pb):
+                if isinstance(x, I.Num) and isinstance(y, I.Num):
+                    r = band(r, cmp_term('Eq', x.term, y.term))
+                elif isinstance(x, I.BoolV) and isinstance(y, I.BoolV):
+                    r = band(r, bor(band(x.b, y.b), band(bnot(x.b), bnot(y.b))))
+                elif isinstance(x, I.Opaque) and isinstance(y, I.Opaque):
+                    continue        # unit-like error payloads
+                else:
+                    raise I.InterpError('equality of %r and %r is not modelled' % (x, y))
+        return I.BoolV(bnot(r) if negate else r)
+    return m
+
+
 _NORM = [
     ('core::iter::traits::iterator::Iterator', 'core::iter::Iterator'),
     ('core::iter::traits::collect::IntoIterator', 'core::iter::IntoIterator'),
@@ -1948,6 +2038,11 @@ def registry():
         'core::iter::Iterator::skip': _iter_adaptor('skip'),
         'core::iter::Iterator::rev': _iter_adaptor('rev'),
         'core::iter::Iterator::sum': m_iter_sum,
+        'core::iter::Iterator::count': m_iter_count,
+        '<core::result::Result<T, E> as core::cmp::PartialEq>::eq': m_enum_eq(False),
+        '<core::result::Result<T, E> as core::cmp::PartialEq>::ne': m_enum_eq(True),
+        '<core::option::Option<T> as core::cmp::PartialEq>::eq': m_enum_eq(False),
+        '<core::option::Option<T> as core::cmp::PartialEq>::ne': m_enum_eq(True),
         'core::iter::Iterator::position': m_iter_position,
         "<core::slice::Iter<'a, T> as core::iter::Iterator>::position": m_iter_position,
         'core::iter::DoubleEndedIterator::rposition': m_iter_position,
